@@ -178,10 +178,74 @@ void body_held(int readers, int mods)
     delete lr;
 }
 
+// Writers whose functor throws (half-way through its update) on its first or on its second
+// application: the modification must still be all-or-nothing for readers holding / taking handles.
+struct Boom {};
+void body_throwing(int throw_at, int readers, int acq)
+{
+    hx::win_reset();
+    LR* lr = new LR(0);
+    int effect = 0;
+    {
+        std::vector<int> ids;
+        ids.push_back(spawn([lr, throw_at, &effect] {
+            for (int m = 0; m < 2; m++) {
+                int calls = 0;
+                bool first_done = false;
+                try {
+                    lr->modify([&](Pair& x) {
+                        ++calls;
+                        hx::WriteWin w(&x, "modify functor");
+                        ++x.a;
+                        point();
+                        if (m == 0 && calls == throw_at) throw Boom();
+                        ++x.b;
+                        if (calls == 1) first_done = true;
+                    });
+                }
+                catch (const Boom&) {
+                }
+                if (first_done) ++effect;
+                stamp();
+            }
+        }));
+        for (int r = 0; r < readers; r++)
+            ids.push_back(spawn([lr, acq, r] {
+                int last = -1;
+                for (int i = 0; i < acq; i++) {
+                    LR::shared_handle h = acquire(lr, (r + i) % 4);
+                    int v = hx::read_pair(*h, "reader under shared handle");
+                    point();
+                    int v2 = hx::read_pair(*h, "reader under shared handle (re-read)");
+                    MC_CHECK(v == v2, "changed-under-handle", "value changed from %d to %d while the shared handle was held", v, v2);
+                    MC_CHECK(v >= last, "non-monotone", "reader observed %d after having observed %d", v, last);
+                    last = v;
+                    observe((uint64_t)v);
+                }
+            }));
+        for (int id : ids) join(id);
+    }
+    int fin = hx::read_pair(*lr->lock_shared(), "final read");
+    MC_CHECK(fin == effect, "not-atomic", "final value %d but %d modifications took effect", fin, effect);
+    lr->modify([](Pair&) {});
+    int fin2 = hx::read_pair(*lr->lock_shared(), "final read of the other copy");
+    MC_CHECK(fin == fin2, "copies-differ", "the two internal copies disagree (%d vs %d)", fin, fin2);
+    delete lr;
+}
+
 void make_items(const Options& o, std::vector<Item>& items)
 {
     bool thorough = o.tier == "thorough";
     int nform = 0;
+    for (int throw_at = 1; throw_at <= 2; throw_at++)
+        for (int readers = 1; readers <= 2; readers++) {
+            Item it;
+            it.name = "lr_guarded<Pair> | writer: modify x2, the functor of the first throws half-way on its " +
+                std::string(throw_at == 1 ? "first" : "second") + " application | " + std::to_string(readers) + " reader(s) x2";
+            it.body = [throw_at, readers] { body_throwing(throw_at, readers, 2); };
+            it.bounds = hx::tier_bounds(o, readers == 1 ? 3 : 2, readers == 1 ? 5 : 3);
+            items.push_back(it);
+        }
     for (int readers = 1; readers <= 2; readers++)
         for (int mods = 1; mods <= 2; mods++) {
             Item it;
